@@ -17,7 +17,9 @@ use crate::tlspeer::{self, ConnectProxy, ProxyLog, TlsLog, TlsPeer};
 const MATRIX: u64 = 4 * 2 * 2 * 2 * 4 * 3 * 8;
 /// https URL through an https proxy (TLS inside TLS): outer identity x inner identity x flags
 const TUNNEL_CELLS: u64 = 4 * 3 * 2 * 2;
-pub const CELLS: u64 = MATRIX + TUNNEL_CELLS;
+/// a peer that presents a good certificate without holding its key: name x flags x root {none, ours} x route
+const IMPOSTOR_CELLS: u64 = 2 * 2 * 2 * 2 * 3;
+pub const CELLS: u64 = MATRIX + TUNNEL_CELLS + IMPOSTOR_CELLS;
 
 #[derive(Clone, Copy, Debug, PartialEq, Eq)]
 enum Chain {
@@ -236,9 +238,27 @@ fn warm_up(ctx: &RunCtx) {
 pub fn scenario(g: &mut G, ctx: &RunCtx) -> RunReport {
     warm_up(ctx);
     let cell = g.forced(ctx.index.unwrap_or(0), CELLS);
+    if cell >= MATRIX + TUNNEL_CELLS {
+        // the matrix cell with the same name / flags / root / route, chain to the added root, flags on the
+        // session - presented by somebody who does not hold the certificate's key
+        let mut i = cell - MATRIX - TUNNEL_CELLS;
+        let mut take = |n: u64| {
+            let v = i % n;
+            i /= n;
+            v
+        };
+        let (name, certs, hosts, root, route) = (take(2), take(2), take(2), take(2), take(3));
+        let m = name * 4 + certs * 8 + hosts * 16 + root * 32 + route * 128;
+        return matrix_cell(g, ctx, m, true);
+    }
     if cell >= MATRIX {
         return tunnel_cell(g, ctx, cell - MATRIX);
     }
+    matrix_cell(g, ctx, cell, false)
+}
+
+fn matrix_cell(g: &mut G, ctx: &RunCtx, cell: u64, impostor: bool) -> RunReport {
+    let _ = &g;
     let mut c = cell;
     let mut take = |n: u64| {
         let v = c % n;
@@ -263,6 +283,7 @@ pub fn scenario(g: &mut G, ctx: &RunCtx) -> RunReport {
         },
         if name_matches { "" } else { "-wrongname" }
     );
+    let fixture = if impostor { format!("{}+foreignkey", fixture) } else { fixture };
     // effective settings of the request under test
     // a sent sibling in the "other CA" cells adds *our* CA while the request under test adds the other one:
     // two siblings with one added root each, and not the same one
@@ -270,9 +291,11 @@ pub fn scenario(g: &mut G, ctx: &RunCtx) -> RunReport {
     let (eff_certs, eff_hosts, eff_root) = if place == Place::Sibling || place == Place::SiblingSent { (false, false, two_cas) } else { (accept_certs, accept_hosts, root_added) };
     // the unrelated CA is the issuer of the "unknown issuer" fixtures: adding it makes exactly those chains valid
     let chain_ok = eff_root && ((chain == Chain::ToAddedRoot && root == Root::Ours) || (chain == Chain::UnknownIssuer && root == Root::OtherAfterDecoy));
-    let want_ok = eff_certs || (chain_ok && (name_matches || eff_hosts));
+    // whoever cannot prove possession of the certificate's key is nobody: never accepted while certificates
+    // are checked at all (with the check waived the TLS libraries still insist on the proof: not decided)
+    let want_ok = (eff_certs || (chain_ok && (name_matches || eff_hosts))) && !impostor;
     // with the presented certificate as the added root only the refusals are decided
-    let undecided = eff_root && root == Root::Presented && !eff_certs && chain != Chain::Expired && (name_matches || eff_hosts);
+    let undecided = (eff_root && root == Root::Presented && !eff_certs && chain != Chain::Expired && (name_matches || eff_hosts)) || (impostor && eff_certs);
 
     let sim = Sim::new(ctx.sim_config());
     let seen = Arc::new(Mutex::new(Seen::default()));
@@ -349,7 +372,7 @@ pub fn scenario(g: &mut G, ctx: &RunCtx) -> RunReport {
             Route::HttpsProxy => pb = pb.http_proxy(url::Url::parse("https://proxy.test:3129").unwrap()),
         }
         session.proxy_settings(pb.build());
-        let presented_pem = tlspeer::fixture(&fixture).0;
+        let presented_pem = tlspeer::fixture(fixture.trim_end_matches("+foreignkey")).0;
         let my_root = || match root {
             Root::Ours => cert_of(tlspeer::CA_PEM),
             Root::Presented => cert_of(presented_pem),
@@ -468,7 +491,7 @@ pub fn scenario(g: &mut G, ctx: &RunCtx) -> RunReport {
     };
     let plaintext_at_peer: usize = tls_log.lock().unwrap().sessions.iter().skip(sessions_before).map(|s| s.plaintext_in).sum();
     let result: Option<Result<Result<(u16, Vec<u8>), String>, String>> = out.result.as_ref().map(|r| r.as_ref().map(|(res, _)| res.clone()).map_err(|e| e.clone()));
-    let tag = format!("{:?}:{:?}:name={}:certs={}:hosts={}:root={:?}:{:?}", route, chain, name_matches, accept_certs, accept_hosts, root, place);
+    let tag = format!("{:?}:{}{:?}:name={}:certs={}:hosts={}:root={:?}:{:?}", route, if impostor { "impostor-without-the-key:" } else { "" }, chain, name_matches, accept_certs, accept_hosts, root, place);
     let verdict = match &result {
         None => violation("hang", "torn down"),
         Some(Err(m)) => violation("panic", m.clone()),
